@@ -910,3 +910,60 @@ example : stillRelevantAfter (exAfter [yCo]) [yCo] t2 = false
     ∧ (accounts yCo).contains (sender t2) = false := by decide
 
 end NeoModel.C07
+
+namespace NeoModel.C07
+open NeoModel NeoModel.Fees NeoModel.Admission NeoModel.Pack NeoModel.Native
+
+/-! ## 11. the price of a native `verify` witness -/
+
+/-- **native_verify_price_table.** In the regenerated native method table `Notary.verify` and `OracleContract.verify` cost
+`1 << 15` price units; with the opcode prices of the contract's call stub (PUSH0, SYSCALL, RET; PUSHDATA1 for Notary's
+signature) a Notary witness costs 32777 and an Oracle witness 32769 units of the base execution fee — at the default fee
+983310 and 983070 datoshi. (`Native.nativeVerifyPrice` is compared with the gas the real VM consumes on every run: `nprice`
+lines.) -/
+theorem native_verify_price_table :
+    verifyCpuFee "Notary" = 32768 ∧ verifyCpuFee "OracleContract" = 32768
+    ∧ (∀ base, nativeVerifyPrice base "Notary" true = picoToDatoshi (base * 32777))
+    ∧ (∀ base, nativeVerifyPrice base "OracleContract" false = picoToDatoshi (base * 32769))
+    ∧ nativeVerifyPrice 300000 "Notary" true = 983310 ∧ nativeVerifyPrice 300000 "OracleContract" false = 983070 := by
+  have h1 : verifyCpuFee "Notary" = 32768 := by decide
+  have h2 : verifyCpuFee "OracleContract" = 32768 := by decide
+  refine ⟨h1, h2, ?_, ?_, by decide, by decide⟩
+  · intro base; simp only [nativeVerifyPrice, h1]; rfl
+  · intro base; simp only [nativeVerifyPrice, h2]; rfl
+
+/-- with that price the threshold theorem applies to a Notary witness that verifies. -/
+example (c : Chain) : PricedWit c (nativeWit (nativeVerifyPrice c.base "Notary" true) true) (nativeVerifyPrice c.base "Notary" true) :=
+  Or.inr rfl
+
+end NeoModel.C07
+
+namespace NeoModel.C07
+open NeoModel NeoModel.Fees NeoModel.Admission NeoModel.Pack
+
+/-! ## 12. what a stored transaction does to the ones it names -/
+
+/-- **store_then_conflict.** Once `StoreAsTransaction` has stored `y` at `index`, every hash `y` names in a Conflicts
+attribute (unless a block is stored under it) is refused by `dao.HasTransaction` for every signer set that shares ANY
+account with `y`, as long as `index` is inside the traceability window — whether or not the shared account is the sender
+of the transaction asking. -/
+theorem store_then_conflict (lookup : Nat → Rec) (y : Tx) (index h : Nat) (signers : List Nat) (a height mtb : Nat)
+    (hy : h ≠ y.hash) (hn : h ∈ conflictHashes y) (hb : lookup h ≠ .block)
+    (ha : a ∈ signers) (hay : a ∈ accounts y) (ht : isTraceable index height mtb = true) :
+    hasTransaction (storeTx lookup y index h) signers height mtb = some .hasConflicts := by
+  have hne : signers ≠ [] := by intro e; rw [e] at ha; simp at ha
+  have hmem : (a, index) ∈ (accounts y).map (·, index) := List.mem_map.mpr ⟨a, hay, rfl⟩
+  have hc : (conflictHashes y).contains h = true := by simpa using hn
+  simp only [storeTx, hy, if_false, hc, if_true]
+  cases hl : lookup h with
+  | block => exact absurd hl hb
+  | none => exact (conflict_record_blocks_iff _ _ _ _ _ hne).mpr ⟨ht, a, ha, (a, index), hmem, rfl, ht⟩
+  | tx => exact (conflict_record_blocks_iff _ _ _ _ _ hne).mpr ⟨ht, a, ha, (a, index), hmem, rfl, ht⟩
+  | stub i recs =>
+    exact (conflict_record_blocks_iff _ _ _ _ _ hne).mpr ⟨ht, a, ha, (a, index), by simp [hmem], rfl, ht⟩
+
+-- the co-signer's conflict of section 10, at the level of the store
+example : hasTransaction (storeTx (fun _ => .none) yCo 11 40) [10, 11] 11 1000 = some .hasConflicts :=
+  store_then_conflict _ yCo 11 40 [10, 11] 11 11 1000 (by decide) (by decide) (by simp) (by simp) (by decide) (by decide)
+
+end NeoModel.C07
